@@ -263,7 +263,12 @@ def check_nop(ck: Check):
                 def run(conn):
                     try:
                         if via == "execute":
-                            return rows_of(conn.cursor().execute(stmt))
+                            cur_ = conn.cursor()
+                            if len(stmt) % 2:
+                                # a cursor that has been used before and has handed out rows: the statement's result replaces the old one completely
+                                cur_.execute("select k, v from c16_t union all select 2, 'two'")
+                                cur_.fetchmany(2)
+                            return rows_of(cur_.execute(stmt))
                         cs = list(conn.execute_string(stmt))
                         return rows_of(cs[0]) if len(cs) == 1 else f"{len(cs)} cursors"
                     except Exception as e:  # noqa: BLE001
